@@ -120,6 +120,15 @@ Proof.
   - unfold opts. cbn [set_mode with_tr tr fresh training disc hard gum nos sn_temp]. now rewrite Hd, Hh, Hg, Hn, Ht.
 Qed.
 
+(* requires_grad flags (trainability switches), the SuperNet coefficient attribute and the MPS ranges never reach an observation:
+   the observations after the forward pass are a function of the persisted tensors and of [opts] only *)
+Theorem observations_ignore_trainability : forall n m p t1 t2, opts t1 = opts t2 ->
+  observe (forward n {| meth := m; pe := p; tr := t1 |}) = observe (forward n {| meth := m; pe := p; tr := t2 |}).
+Proof. intros. apply observe_forward_opts; auto. Qed.
+
+Lemma switch_keeps_opts : forall s w b, opts (tr (step s (OTrainSwitch w b))) = opts (tr s) /\ pe (step s (OTrainSwitch w b)) = pe s.
+Proof. intros [m p t] w b. split; reflexivity. Qed.
+
 (* the three restart protocols are the same function *)
 Lemma load_fresh_like : forall c ops f, meth f = c_meth c -> pe f = pe (fresh c) ->
   load (save (run (fresh c) ops)) f = Some {| meth := c_meth c; pe := pe (run (fresh c) ops); tr := tr f |}.
@@ -175,6 +184,7 @@ Proof.
   - cbn. auto.
   - cbn. auto.
   - unfold forward. cbn [meth pe tr]. destruct (c_meth c); cbn; auto.
+  - cbn. auto.
 Qed.
 
 Lemma opts_match_run : forall c ops s, meth s = c_meth c -> forallb (keeps_opts c) ops = true -> opts_match s c -> opts_match (run s ops) c.
